@@ -711,7 +711,7 @@ func TestC10(t *testing.T) {
 		if err != nil {
 			t.Fatal(err)
 		}
-		for i := 0; i < vlib.Scale(40, 1000); i++ {
+		for i := 0; i < vlib.Scale(40, 150); i++ {
 			c10Snapshots(ev, driver, s, 100000+i, false)
 		}
 		cleanup()
@@ -755,7 +755,7 @@ func TestC10(t *testing.T) {
 	}
 	for _, driver := range vlib.Drivers() {
 		driver := driver
-		parallelCases(vlib.Scale(6, 100), 3, func(i int) { contractSnapshots(ev, driver, i) })
+		parallelCases(vlib.Scale(6, 40), 3, func(i int) { contractSnapshots(ev, driver, i) })
 	}
 	finish(t, ev)
 }
